@@ -221,8 +221,9 @@ def _attr_err(e):
     """['raise', 'AttributeError', <the undefined name CPython reported>, <the message names exactly that attribute>]"""
     cause = e.__cause__
     name = getattr(cause, 'name', None) if isinstance(cause, NameError) else None
-    m = re.search(r"has no attribute '([^']*)'", str(e))
-    return ['raise', 'AttributeError', name, bool(name is not None and m is not None and m.group(1) == name)]
+    # the message must NAME the undefined identifier (as a whole word); its wording is free
+    named = name is not None and re.search(r'(?<![A-Za-z0-9_])%s(?![A-Za-z0-9_])' % re.escape(name), str(e).split('Did you mean')[0]) is not None
+    return ['raise', 'AttributeError', name, bool(named)]
 
 
 def _twice(x, *a, **k):
